@@ -7,14 +7,16 @@ import time
 import warnings
 
 from harness.common import Ck, coq_bool, coq_list, parse_coq_N_list
-from translate import c01_kvser, c02_tables
+from translate import c01_kvloop, c01_kvser, c02_tables
 
 MANIFEST = dict(
     technique='Rocq proof (character-level KV lexer proved equal to the reader-program tokenizer model of C03 under the '
               'options Keyvalues.parse passes; Keyvalues.parse token loop with its options; template-interpreting models of '
               'serialise() and of the deprecated export(); round trip by induction over trees; chunk independence '
-              'inherited from the generic reader theorem) + ast translator for write templates, escape tables and the '
-              'decisive tests of parse/_serialise/export with kernel-checked instance obligations + vm_compute '
+              'inherited from the generic reader theorem; the token loop regenerated from the source as a decision tree by '
+              'symbolic execution of the loop body, its semantics proved equal to the hand-written token loop for the '
+              'reference tree, and a symbolic tree-equivalence checker proved sound) + ast translator for write templates, '
+              'escape tables and the decisive tests of parse/_serialise/export with kernel-checked instance obligations + vm_compute '
               'correspondences (sampled, and exhaustive at the token level) + round-trip oracle on the implementation',
     text='Theorems in Props/C01.v: for every write-template configuration accepted by cfg_ok (xcfg_ok for export()), every '
          'escape table accepted by esc_ok and every parser configuration accepted by pcfg_ok, for all trees (any '
@@ -38,9 +40,25 @@ MANIFEST = dict(
          'named booleans. The token loop model is compared with Keyvalues.parse on ALL token strings up to length 4 '
          '(thorough: 5) over a 9-symbol alphabet under all 16 option vectors (scripted tokenizer, checksums), on '
          'generated/mutated/hand-made texts under random options, and on chunk lists through the reader model; the '
-         'writers models are compared with serialise()/export() text exactly.',
-    note='Trusted: Coq kernel + vm_compute, translate/c01_kvser.py and translate/c02_tables.py, the hand model of the '
-         'token loop KV/KvParse.v (tied by the exhaustive token-level and sampled text-level correspondences), the C03 '
+         'writers models are compared with serialise()/export() text exactly. '
+         'Round 3: translate/c01_kvloop.py executes the body of the token loop of Keyvalues.parse symbolically, path by '
+         'path (control flow normalised by inlining the continuation, decided tests pruned, heap operations on '
+         'cur_block / cur_block_contents / open_keyvalues / keyvalue summarised per path into one block-stack operation '
+         'after checking that the loop invariant is re-established) into a decision tree gen_ptree (112 tests, 113 leaves) '
+         'and gen_pfinal. ploop gives the trees a semantics; parse_loop_reference_tree_is_token_loop proves that the '
+         'reference tree runs exactly like the hand-written prun from every state on every token list; '
+         'parse_loop_tree_equiv_sound proves the symbolic equivalence checker tree_equiv sound (order of independent '
+         'tests, repeated/redundant tests do not matter); loop_ok gen_ptree gen_pfinal gen_parsecfg is discharged in the '
+         'kernel, so parse_loop_tree_is_model and kv_roundtrip_source_loop* apply to the regenerated loop. Named '
+         'obligations per kind of loop token, for the push/pop sites and for the loop invariant point at the site of a '
+         'deviation; the regenerated tree is also run against prun inside the kernel on all token strings up to length 3 '
+         '(thorough 4) x 16 option vectors x 2 endings.',
+    note='Trusted: Coq kernel + vm_compute, translate/c01_kvser.py, translate/c01_kvloop.py (the symbolic reading of '
+         'the loop body: alias tracking of four variables, classification of error messages by prefix) and '
+         'translate/c02_tables.py, the meaning given to the atoms and block-stack operations in KV/KvLoop.v '
+         '(eval_atom, apply_sop) -- the hand model of the token loop KV/KvParse.v is now proved equal to the regenerated '
+         'tree under that meaning, and both are still compared with Keyvalues.parse by the exhaustive token-level and '
+         'sampled text-level correspondences --, the C03 '
          'tokenizer model Text/Tokenizer.v (tied by C03\'s exhaustive small-scope correspondence; KV/KvLex.v is no longer '
          'trusted: it is proved equal to it), CPython. _read_flag is not modelled: its verdicts enter as an arbitrary '
          'predicate (theorems hold for all of them; correspondences record the real verdicts). allow_escapes=False, '
@@ -52,6 +70,9 @@ MANIFEST = dict(
 
 IMPORTS = ['Coq.Lists.List', 'Coq.NArith.NArith', 'Coq.Bool.Bool', 'SV.KV.KvBase', 'SV.KV.KvLex', 'SV.KV.KvParse',
            'SV.KV.KvSer', 'SV.KV.KvSym', 'SV.KV.KvExport', 'SV.KV.KvEnum', 'SV.KV.KvFlags', 'SV.Gen.KVSer_gen']
+IMPORTS_LOOP = ['Coq.Lists.List', 'Coq.NArith.NArith', 'Coq.Bool.Bool', 'SV.KV.KvBase', 'SV.KV.KvLex', 'SV.KV.KvParse',
+                'SV.KV.KvLoop', 'SV.KV.KvLoopRef', 'SV.KV.KvLoopEquiv', 'SV.KV.KvLoopRoundtrip', 'SV.KV.KvEnum', 'SV.KV.KvLoopEnum',
+                'SV.Gen.KVSer_gen', 'SV.Gen.KVLoop_gen']
 IMPORTS_REFINE = ['Coq.Lists.List', 'Coq.NArith.NArith', 'Coq.Bool.Bool', 'SV.Text.Str', 'SV.Text.Prog', 'SV.Text.Tokenizer',
                   'SV.Text.TokGen', 'SV.KV.KvBase', 'SV.KV.KvLex', 'SV.KV.KvParse', 'SV.KV.KvRefine', 'SV.Gen.KVSer_gen']
 PRE = '''Import ListNotations. Open Scope N_scope.
@@ -1111,12 +1132,17 @@ def run(ck: Ck) -> None:
     # the constant tables of the C03 tokenizer model (Text/TokGen.v over Gen/EscTables_gen.v, C02's translator): the
     # refinement theorem kv_lexer_refines_tokenizer is instantiated for them
     ok_t = ck.translate('EscTables_gen', c02_tables.translate) and ok_t
+    # the token loop of Keyvalues.parse as a decision tree (symbolic execution of the loop body, path by path)
+    ok_t = ck.translate('KVLoop_gen', c01_kvloop.translate) and ok_t
     # KV/KvEnum.vo is used by the correspondences only (no theorem depends on it): name it explicitly
-    built = ok_t and ck.build(['Gen/KVSer_gen.vo', 'Gen/EscTables_gen.vo', 'Text/TokGen.vo', 'KV/KvEnum.vo', 'Props/C01.vo'])
+    built = ok_t and ck.build(['Gen/KVSer_gen.vo', 'Gen/EscTables_gen.vo', 'Gen/KVLoop_gen.vo', 'Text/TokGen.vo', 'KV/KvEnum.vo',
+                               'KV/KvLoopEnum.vo', 'Props/C01.vo'])
     if built:
         ck.theorems('Props/C01.v')
         noraw = '(fun t => forallb (fun p => match p with PRaw _ | POther => false | _ => true end) t)'
-        inst = ck.instance_obligations(IMPORTS, {
+        is_push = '(fun s => match s with SOpenLast | SOpenDummy => true | _ => false end)'
+        is_pop = '(fun s => match s with SPop => true | _ => false end)'
+        inst = ck.instance_obligations(IMPORTS + [i for i in IMPORTS_LOOP if i not in IMPORTS], {
             'escape_table_covers_quote': 'esc_quote_ok gen_escfg',
             'escape_table_covers_backslash': 'esc_backslash_ok gen_escfg',
             'escape_table_covers_CR': 'esc_cr_ok gen_escfg',
@@ -1144,6 +1170,23 @@ def run(ck: Ck) -> None:
             'xcfg_ok(premise of kv_export_roundtrip)': 'xcfg_ok gen_expcfg',
             'no_store_to_tree_in_writers': 'Nat.eqb (length gen_tree_stores) 0',
             'no_mutating_call_on_tree_in_writers': 'Nat.eqb (length gen_tree_mut_calls) 0',
+            # the token loop of parse as a regenerated decision tree (Gen/KVLoop_gen.v) against the reference tree
+            'parse_loop_every_path_restores_the_block_stack_invariant': 'no_unknown gen_ptree',
+            'parse_loop_on_BRACE_OPEN_equivalent_to_reference_tree': 'equiv_on KBO gen_ptree ref_ptree',
+            'parse_loop_on_BRACE_CLOSE_equivalent_to_reference_tree': 'equiv_on KBC gen_ptree ref_ptree',
+            'parse_loop_on_NEWLINE_equivalent_to_reference_tree': 'equiv_on KNL gen_ptree ref_ptree',
+            'parse_loop_on_STRING_equivalent_to_reference_tree': 'equiv_on KStr gen_ptree ref_ptree',
+            'parse_loop_on_other_tokens_equivalent_to_reference_tree':
+                'equiv_on KFlag gen_ptree ref_ptree && equiv_on KOther gen_ptree ref_ptree',
+            'parse_loop_pushes_only_at_BRACE_OPEN_and_pops_only_at_BRACE_CLOSE':
+                f'Nat.eqb (count_sop {is_push} gen_ptree) (count_sop {is_push} (restrict0 KBO gen_ptree)) && '
+                f'Nat.eqb (count_sop {is_pop} gen_ptree) (count_sop {is_pop} (restrict0 KBC gen_ptree)) && '
+                f'negb (Nat.eqb (count_sop {is_push} gen_ptree) 0) && negb (Nat.eqb (count_sop {is_pop} gen_ptree) 0)',
+            'parse_checks_after_the_loop_equivalent_to_reference_tree': 'tree_equiv gen_pfinal ref_pfinal',
+            'parse_emptiness_guards_present': 'p_replace_guard gen_parsecfg && p_single_block_guard gen_parsecfg',
+            'loop_ok(premise of parse_loop_tree_is_model)': 'loop_ok gen_ptree gen_pfinal gen_parsecfg',
+            f'parse_loop_tree_runs_like_token_loop_model_on_all_token_strings_up_to_length_{ck.budget(3, 4)}':
+                f'tree_agrees_upto gen_ptree gen_pfinal gen_parsecfg {ck.budget(3, 4)}',
         })
         inst.update(ck.instance_obligations(IMPORTS_REFINE, {
             'tokenizer_model_escape_table_equals_kv_lexer_table': 'esc_tables_match gen_tables gen_escfg',
@@ -1152,7 +1195,7 @@ def run(ck: Ck) -> None:
             'tables_match(premise of parse_any_delivery)': 'tables_match gen_tables gen_escfg',
         }, name='inst_refine'))
         if not all(inst.values()):
-            ck.tie_broken.append('instance obligations over Gen/KVSer_gen.v: ' + ', '.join(k for k, v in inst.items() if not v))
+            ck.tie_broken.append('instance obligations over Gen/KVSer_gen.v / Gen/KVLoop_gen.v: ' + ', '.join(k for k, v in inst.items() if not v))
         stage['build+theorems+instances'] = round(time.time() - t_stage, 1)
         t_stage = time.time()
         tie_tables(ck, side)
@@ -1186,7 +1229,8 @@ def run(ck: Ck) -> None:
         for pre in ('instance:block_head_lexes', 'instance:block_tail_lexes', 'instance:leaf_lexes',
                     'instance:child_indent', 'instance:root_child_indent', 'instance:cfg_ok_and_esc_ok',
                     'instance:escape_table', 'instance:every_escape_written', 'instance:root_test_of_serialise',
-                    'instance:parse_newline_key_test', 'instance:parse_newline_value_test'):
+                    'instance:parse_newline_key_test', 'instance:parse_newline_value_test',
+                    'instance:parse_loop_', 'instance:parse_checks_after', 'instance:parse_emptiness', 'instance:loop_ok'):
             ck.explain(pre)
     if any(k.startswith('export-roundtrip') for k in keys):
         for pre in ('instance:export_', 'instance:root_test_of_export', 'instance:xcfg_ok'):
